@@ -184,7 +184,7 @@ theorem core_adopted (hok : ∀ s a, fairEnv s a → ok s a) (h : PState ok j0 j
       (generateTaskRefs s.clock jo.job.status.tasks (foundTasks s jo))).complete = false)
     (hf : jo.job.status.tasks.any refActiveOrSuccessful = false) (p : PodObj) (t : Task)
     (htaken : findPod s.pods (taskName jo.name s.d.hash jo.job.status.tasks.length) = some p)
-    (ht : podTask p = some t)
+    (ht : podTask s.clock p = some t)
     (hpo : PassOut jo s w (recompute s.clock s.d jo.job (foundTasks s jo ++ [t])).status [])
     (harmed : (deliverAll w).q.queue ≠ [] ∨ (deliverAll w).q.delayed ≠ []) :
     ∃ jo', jo'.name = jo.name ∧ Canon ok j0 jo' F0 (deliverAll w) ∧ (Busy jo' (deliverAll w) ∨ Done jo' (deliverAll w)) ∧
@@ -255,7 +255,7 @@ theorem core_adopted (hok : ∀ s a, fairEnv s a → ok s a) (h : PState ok j0 j
     · exact Or.inl hx
     · refine Or.inr ⟨t, rfl, ?_, htname, hdead⟩
       unfold lookTask
-      rw [hpods, List.append_nil, htname]
+      rw [hpods, List.append_nil, htname, hclk]
       exact hlook
   refine ⟨jo', hname, hcan, ?_, hclk, by rw [hjob], hcfgw, hrs⟩
   by_cases hdecided : t.ref.status.result = .succeeded ∨ (jo.job.status.tasks.length : Int) + 1 ≥ jo.job.maxAttempts
